@@ -72,6 +72,11 @@ def closure_true_literals(prog, body, tree):
     return cnd.join_literal_sets(sets), cb
 
 
+# the variant in which parse_and_filter hands the accepted message to its caller (ControlFlow<_, Message>, or an
+# Option / Result carrying the message after a refactor)
+PASS_VARIANTS = ("Continue", "Some", "Ok")
+
+
 def run(ctx):
     rep = ctx.report
     prog = ctx.prog("default")
@@ -96,7 +101,7 @@ def run(ctx):
             rep.ok("NI-1", pf.key, "effect-free", where=pf.loc())
         found = False
         for bi, si, s in mir.iter_stmts(pf):
-            if s["k"] == "assign" and s["p"]["l"] == 0 and s["r"]["k"] == "agg" and s["r"].get("variant") == "Continue":
+            if s["k"] == "assign" and s["p"]["l"] == 0 and s["r"]["k"] == "agg" and s["r"].get("variant") in PASS_VARIANTS:
                 found = True
                 lits = c.must_literals(bi)
                 compat = any(l[0] == "bool" and l[2] is True and df.strip(l[1])[0] == "call" and
@@ -145,7 +150,7 @@ def run(ctx):
             cb_ = cnd.conds(prog, b)
             for (bi, line, kind, text) in E.sites(b):
                 lits = cb_.must_literals(bi)
-                ok = any(l[0] == "variant" and l[2] == frozenset(["Continue"]) and df.strip(l[1])[0] == "call" and
+                ok = any(l[0] == "variant" and len(l[2]) == 1 and set(l[2]) <= set(PASS_VARIANTS) and df.strip(l[1])[0] == "call" and
                          df.strip(l[1])[2] == "parse_and_filter" for l in lits)
                 if ok:
                     rep.ok("NI-1", b.key, "after-filter:%s" % text, where=fc.where(b, line))
